@@ -114,7 +114,7 @@ func serverTimingAttempt(ts *rig.TestServer, c timingCase) bool {
 	// silent phase: only spoofers (and, for play, an intruder's keep-alives from another IP)
 	var sps []*spoofer
 	for m := 0; m < 2; m++ {
-		sps = append(sps, openSpoofers("127.0.0.1", v.cp[m], v.cp[m]+1, false, otherIPs(r, 2, "127.0.0.1"))...)
+		sps = append(sps, openSpoofers("127.0.0.1", v.cp[m], v.cpc[m], false, otherIPs(r, 2, "127.0.0.1"))...)
 	}
 	defer func() {
 		for _, sp := range sps {
